@@ -34,22 +34,22 @@ def load() -> dict:
     return _cache
 
 
-def functions(tree: ast.Module) -> dict[str, tuple[ast.FunctionDef, list, int]]:
-    """qualname -> (node, containing body list, index); duplicates (getter / setter pairs) get #2, #3 ..."""
-    out: dict[str, tuple[ast.FunctionDef, list, int]] = {}
+def functions(tree: ast.Module) -> dict[str, tuple[ast.FunctionDef, list, int, Optional[ast.ClassDef]]]:
+    """qualname -> (node, containing body list, index, class); duplicates (getter / setter pairs) get #2, #3 ..."""
+    out: dict[str, tuple[ast.FunctionDef, list, int, Optional[ast.ClassDef]]] = {}
 
-    def walk(body: list, prefix: str) -> None:
+    def walk(body: list, prefix: str, cls: Optional[ast.ClassDef]) -> None:
         for i, s in enumerate(body):
             if isinstance(s, ast.ClassDef):
-                walk(s.body, prefix + s.name + '.')
+                walk(s.body, prefix + s.name + '.', s)
             elif isinstance(s, ast.FunctionDef):
                 key = prefix + s.name
                 k, n = key, 1
                 while k in out:
                     n += 1
                     k = f'{key}#{n}'
-                out[k] = (s, body, i)
-    walk(tree.body, '')
+                out[k] = (s, body, i, cls)
+    walk(tree.body, '', None)
     return out
 
 
@@ -67,7 +67,12 @@ def restore(rel: str, tree: ast.Module, log: list[str]) -> ast.Module:
     base = load()['files'].get(rel)
     if not base:
         return tree
-    for qual, (node, body, idx) in functions(tree).items():
+    funcs = functions(tree)
+    restored: list[str] = []
+    plan: list[tuple[str, ast.FunctionDef, str]] = []
+    tables: dict[int, dict] = {}
+    # phase 1: decide on the tree as written (helper tables must not see half-restored functions)
+    for qual, (node, body, idx, cls) in funcs.items():
         ref = base.get(qual)
         if ref is None:
             continue
@@ -79,18 +84,88 @@ def restore(rel: str, tree: ast.Module, log: list[str]) -> ast.Module:
             continue
         if _deco(ref_node) != _deco(node):
             continue
+        how = ''
         try:
-            same = nf.digest(node) == ref['nf']
+            if nf.digest(node) == ref['nf']:
+                how = 'same normal form'
+            else:
+                key = id(cls)
+                if key not in tables:
+                    tables[key] = nf.helper_table(tree, cls)
+                if nf.digest_inlined(node, tables[key]) == ref.get('nf_inl', ref['nf']):
+                    how = 'same normal form once private helpers are inlined'
         except Exception:       # the normaliser does not know a construct: analyse the function as written
-            same = False
-        if not same:
-            continue
+            how = ''
+        if how:
+            plan.append((qual, ref_node, how))
+    # phase 2: substitute
+    for qual, ref_node, how in plan:
+        node, body, idx, cls = funcs[qual]
         first = min([node.lineno] + [d.lineno for d in node.decorator_list])
         ref_first = min([ref_node.lineno] + [d.lineno for d in ref_node.decorator_list])
         ast.increment_lineno(ref_node, first - ref_first)
         body[idx] = ref_node
-        log.append(f'{rel}:{qual} (line {node.lineno}): same normal form as the reference version; analysed in the reference spelling')
+        restored.append(qual)
+        log.append(f'{rel}:{qual} (line {node.lineno}): {how} as the reference version; analysed in the reference spelling')
+    if restored:
+        _sync_helpers(rel, tree, base, restored, log)
     return tree
+
+
+def _private_refs(node: ast.AST) -> set[str]:
+    out: set[str] = set()
+    for x in ast.walk(node):
+        if isinstance(x, ast.Attribute) and x.attr.startswith('_') and not x.attr.startswith('__'):
+            out.add(x.attr)
+        elif isinstance(x, ast.Name) and x.id.startswith('_') and not x.id.startswith('__'):
+            out.add(x.id)
+    return out
+
+
+def _sync_helpers(rel: str, tree: ast.Module, base: dict, restored: list[str], log: list[str]) -> None:
+    """reference functions may call private helpers the rewrite inlined away (add them back from the reference), and the rewrite may have
+    introduced private helpers that nothing calls any more once its callers are in reference spelling (drop them)"""
+    funcs = functions(tree)
+    # add missing helpers referenced by restored functions
+    for qual in restored:
+        node, body, idx, cls = funcs[qual]
+        prefix = qual.rsplit('.', 1)[0] + '.' if '.' in qual else ''
+        for name in sorted(_private_refs(node)):
+            for cand, target_body in ((prefix + name, cls.body if cls is not None else tree.body), (name, tree.body)):
+                if cand in base and cand not in funcs and cand.count('.') == (1 if target_body is not tree.body else 0):
+                    try:
+                        h = ast.parse(base[cand]['src']).body[0]
+                    except SyntaxError:
+                        continue
+                    ast.increment_lineno(h, node.lineno - h.lineno)
+                    target_body.append(h)
+                    funcs = functions(tree)
+                    log.append(f'{rel}:{cand}: private helper of the reference version re-added (the rewrite had inlined it)')
+                    break
+    # drop private helpers that are new and no longer referenced
+    changed = True
+    while changed:
+        changed = False
+        funcs = functions(tree)
+        for qual, (node, body, idx, cls) in funcs.items():
+            name = node.name
+            if qual in base or not name.startswith('_') or name.startswith('__'):
+                continue
+            used = False
+            for other in ast.walk(tree):
+                if other is node:
+                    continue
+                if isinstance(other, ast.Attribute) and other.attr == name:
+                    used = True
+                    break
+                if isinstance(other, ast.Name) and other.id == name and not any(other is y for y in ast.walk(node)):
+                    used = True
+                    break
+            if not used:
+                body.remove(node)
+                log.append(f'{rel}:{qual}: private helper introduced by a rewrite, unreferenced after its callers were restored; dropped')
+                changed = True
+                break
 
 
 def build(repo: str) -> dict:
@@ -108,7 +183,7 @@ def build(repo: str) -> dict:
             tree = ast.parse(src)
             lines = src.splitlines(keepends=True)
             entry = {}
-            for qual, (node, _, _) in functions(tree).items():
+            for qual, (node, _, _, cls) in functions(tree).items():
                 first = min([node.lineno] + [d.lineno for d in node.decorator_list])
                 text = ''.join(lines[first - 1:node.end_lineno])
                 # dedent to column 0 so that the text parses on its own
@@ -116,6 +191,12 @@ def build(repo: str) -> dict:
                 text = ''.join(l[indent:] if l.strip() else l for l in text.splitlines(keepends=True))
                 try:
                     entry[qual] = {'nf': nf.digest(node), 'src': text}
+                    try:
+                        inl = nf.digest_inlined(node, nf.helper_table(tree, cls))
+                        if inl != entry[qual]['nf']:
+                            entry[qual]['nf_inl'] = inl
+                    except Exception:
+                        pass
                 except Exception as e:
                     entry[qual] = {'nf': 'unnormalisable: ' + type(e).__name__, 'src': text}
             if entry:
